@@ -107,6 +107,8 @@ impl BDDSet {
 
     pub fn contains<T: BDDCategorizable>(&self, e: T) -> bool {
         let singleton = Self::from_element(e, self.bits, &self.env);
-        self.intersect(&singleton) == &singleton
+        // intersect a copy: a membership query must not modify the set
+        let probe = Self::from_bdd(&self.bdd.borrow(), self.bits, &self.env);
+        probe.intersect(&singleton) == &singleton
     }
 }
